@@ -18,7 +18,7 @@ RULE = ("histories of 5-25 calls on one proxy (normal, raising, oneway, batch, r
 ASSUMPTIONS = ["no verdict depends on a reply being fast: a slow 'deliver' only turns a success into an allowed communication error",
                "replaying a reply from exactly 65536 calls earlier is outside the statement and not generated",
                "server-side execution counts are read after the server has handled every forwarded request (5 s watchdog, expiry = inconclusive)"]
-REQUIRED_REACH = ["recovered_after_daemon_restart", "calls_own_reply", "calls_comm_error", "faults_applied", "oneway_calls", "recovered_after_faults", "exactly_once_tokens", "retries_observed", "seq_wraps"]
+REQUIRED_REACH = ["dead_stream_fetches_refused", "streams_continued_after_reconnect", "recovered_after_daemon_restart", "calls_own_reply", "calls_comm_error", "faults_applied", "oneway_calls", "recovered_after_faults", "exactly_once_tokens", "retries_observed", "seq_wraps"]
 SHARD_TIMEOUT = {"quick": 480, "thorough": 3000}
 KINDS = ["echo", "echo", "echo", "boom", "pyroboom", "oneway", "batch", "attr", "stream", "batchow", "batchmix", "onewaybad"]
 
@@ -486,6 +486,77 @@ def restart_phase(P, servertype, retries, sername, rec, r):
         nsd.close()
 
 
+def stream_phase(P, servertype, sername, rec):
+    """the stream-fetch kind of call. (1) A fetch on a stream the daemon has dropped fails; it is never answered with an item of somebody
+    else's stream, and the other stream loses nothing. (2) A proxy whose connection dropped and that came back within the linger period goes
+    on fetching for as long as it likes - the transport is healthy again."""
+    import time as _t
+    for linger in (0.0, 0.6):
+        fx = fixture.Fixture(servertype=servertype, COMMTIMEOUT=0.0, ITER_STREAMING=True, ITER_STREAM_LINGER=linger, ITER_STREAM_LIFETIME=0.0)
+
+        @P.server.expose
+        class Src(object):
+            def numbers(self, tag, n):
+                return ([tag, i] for i in range(n))
+
+            def ping(self):
+                return "pong"
+        fx.register(Src(), "src")
+        pay = {"stream_phase": True, "servertype": servertype, "serializer": sername}
+        a = fx.proxy("src", serializer=sername, timeout=10.0)
+        b = fx.proxy("src", serializer=sername, timeout=10.0)
+        try:
+            for rnd in range(4 if linger == 0.0 else 2):
+                rec.case(("stream-phase", servertype, sername, linger, rnd), nontrivial=True)
+                ita = a.numbers("A%d" % rnd, 8)
+                first = list(next(ita))
+                a._pyroRelease()                 # the connection goes away ...
+                if linger == 0.0:
+                    if not fx.wait_until(lambda: not fx.daemon.streaming_responses, 10.0):
+                        rec.inconc("stream phase: the daemon did not drop the stream of the closed connection")
+                        return
+                    others = [b.numbers("B%d.%d" % (rnd, j), 4) for j in range(1, 9)]     # ... somebody else opens streams (a few: whatever the daemon
+                    itb = b.numbers("B%d" % rnd, 5)                                          # names streams by, a dead stream's name may come up again)
+                    gotb = [list(next(itb))]
+                    a.ping()                                  # ... the first proxy is back (new connection) and asks its old stream for more
+                    try:
+                        late = ("item", list(next(ita)))
+                    except StopIteration:
+                        late = ("stop",)
+                    except Exception as x:
+                        late = ("error", type(x).__name__)
+                    gotb += [list(x) for x in itb]
+                    for j, o in enumerate(others, 1):
+                        if [list(x) for x in o] != [["B%d.%d" % (rnd, j), i] for i in range(4)]:
+                            gotb.append("stream B%d.%d incomplete" % (rnd, j))
+                    if late[0] == "item" or gotb != [["B%d" % rnd, i] for i in range(5)] or first != ["A%d" % rnd, 0]:
+                        rec.violation("not-own-reply", "stream fetches: proxy A's stream was dropped with its connection; A's next fetch was answered %r, and the stream proxy B opened meanwhile "
+                                      "delivered %r (its generator produces %r)" % (late, gotb, [["B%d" % rnd, i] for i in range(5)]), pay)
+                        return
+                    rec.count("dead_stream_fetches_refused")
+                else:
+                    a.ping()                                  # back within the linger period (new connection)
+                    got = [first, list(next(ita))]            # the stream is taken over by the new connection
+                    _t.sleep(linger + 0.3)                    # much later ...
+                    fx.daemon._housekeeping()                 # ... and after a housekeeping pass the client is still served
+                    try:
+                        got += [list(x) for x in ita]
+                        end = "stop"
+                    except Exception as x:
+                        end = repr(x)
+                    if got != [["A%d" % rnd, i] for i in range(8)] or end != "stop":
+                        rec.violation("proxy-not-recovered-after-reconnect", "stream fetches: the proxy reconnected within the linger period (%.1f s) and went on fetching; it received %r and then %s" % (linger, got, end), pay)
+                        return
+                    rec.count("streams_continued_after_reconnect")
+        finally:
+            for q in (a, b):
+                try:
+                    q._pyroRelease()
+                except Exception:
+                    pass
+            fx.stop()
+
+
 def plan(tier, seed):
     shards = []
     n = 12 if tier == "quick" else 80
@@ -525,10 +596,15 @@ def run_shard(shard, rec):
         rl.close()
         fx.stop()
     restart_phase(P, shard["servertype"], shard["retries"], shard["serializer"], rec, r)
+    if shard["retries"] == 0:
+        stream_phase(P, shard["servertype"], shard["serializer"], rec)
 
 
 def replay(payload, rec):
     P = fixture.pyro()
+    if payload.get("stream_phase"):
+        stream_phase(P, payload["servertype"], payload["serializer"], rec)
+        return
     if payload.get("restart"):
         restart_phase(P, payload["servertype"], payload["retries"], payload["serializer"], rec, gen.rng(0, "replay"))
         return
